@@ -1,6 +1,6 @@
 (* Property C11 — cache serialization is faithful (binary layer).  Statements only. *)
 From Coq Require Import ZArith List String Bool.
-From C11 Require Import Prim Schema Tables ProofsPrim ProofsSchema Json ProofsJson Types ProofsTypes ProofsMono JsonText ProofsJsonText JsonSchema ProofsJsonSchema Fixup ProofsFixup ProofsGen.
+From C11 Require Import Prim Schema Tables ProofsPrim ProofsSchema Json ProofsJson Types ProofsTypes ProofsMono JsonText ProofsJsonText JsonSchema ProofsJsonSchema JsonObj ProofsJsonObj Fixup ProofsFixup ProofsGen.
 From Gen Require Import Schemas.
 Import ListNotations.
 Open Scope Z_scope.
@@ -181,6 +181,40 @@ Theorem formats_agree_on_values_partial :
 Proof. exact extracted_formats_agree. Qed.
 Print Assumptions formats_agree_on_values_partial.
 
+(* the same with the concrete recursive binary codec: every binary-side hypothesis is discharged (nested objects at any
+   depth, Instance fast paths, SymbolTable(Node), literal and JSON-value codecs).  What is still assumed, exactly: the round
+   trip [nd (ne v) = v] of the JSON encoding of NESTED objects (x.serialize() / deserialize_type / C.deserialize), i.e. a
+   recursive JSON object codec; and the JSON op of each field is derived from its binary op, not read off serialize() *)
+Theorem formats_agree_on_values :
+  forall n ne nd, (forall v j, ne v = Some j -> nd j = Some v) ->
+  forall name w r s, In (name, (w, r, s)) json_schemas ->
+  forall vs bs j,
+    write_op (OW n) EW w vs = Some (bs, []) -> fits (obj_wf n) r vs = Some [] -> jser ne s vs = Some j -> jvalid j ->
+    bind (read_op (OR n) ER r bs) (fun x => Some (fst x)) = bind (json_loads (json_dumps j)) (jdeser nd s).
+Proof. exact formats_agree_binary_closed. Qed.
+Print Assumptions formats_agree_on_values.
+
+(* the recursive JSON object codec (x.serialize() / deserialize_type): every class with a keyed JSON schema and Instance
+   (string shortcut, optional last_known_value key), any nesting depth *)
+Theorem json_object_roundtrip : forall n v j, jo_enc n v = Some j -> jo_dec n j = Some v.
+Proof. exact jo_codec_ok. Qed.
+Print Assumptions json_object_roundtrip.
+
+(* formats agree on values, NO hypotheses: concrete recursive codecs on both sides.  Domain: values both encoders accept
+   (nested objects of the keyed-schema classes and Instance; a value containing a LiteralType, TypeInfo or SymbolTable is
+   outside the JSON model and makes jser fail).  Remaining gap, exactly: the JSON op of a field is derived from its binary
+   op, not extracted from serialize()/deserialize() (e.g. ExtraAttrs.attrs is a JSON object in mypy, a pair list here) *)
+Theorem formats_agree_on_values_closed :
+  forall n m name w r s, In (name, (w, r, s)) json_schemas ->
+  forall vs bs j,
+    write_op (OW n) EW w vs = Some (bs, []) -> fits (obj_wf n) r vs = Some [] -> jser (jo_enc m) s vs = Some j -> jvalid j ->
+    bind (read_op (OR n) ER r bs) (fun x => Some (fst x)) = bind (json_loads (json_dumps j)) (jdeser (jo_dec m) s).
+Proof. exact formats_agree_closed. Qed.
+Print Assumptions formats_agree_on_values_closed.
+
+Example json_object_codec_satisfiable : exists j, jo_enc 6 t_dict = Some j /\ jo_dec 6 j = Some t_dict.
+Proof. exact demo_json_type. Qed.
+
 (* ---- fixup *)
 Theorem fixup_restores_references : forall resolve g,
   well_scoped resolve g -> fixup resolve (store g) = in_memory g.
@@ -204,6 +238,13 @@ Print Assumptions lookup_of_missing_module_is_none.
 Theorem fixup_assigns_covered : str_subset fixup_assigns walk_coverage = true.
 Proof. exact fixup_covered. Qed.
 Print Assumptions fixup_assigns_covered.
+
+(* for every schema class: each slot that holds a nested type / node, or a reference stored by name, is touched by the
+   NodeFixer / TypeFixer method that class's accept() dispatches to (both sides extracted from the source); a class that
+   gains a reference-carrying field the fixer does not visit breaks this theorem *)
+Theorem fixup_visits_all_ref_slots : forallb ref_row_ok ref_slots = true.
+Proof. exact fixup_visits_all. Qed.
+Print Assumptions fixup_visits_all_ref_slots.
 
 (* ---- determinism: every serialized attribute declared as a set goes through sorted(...) in both formats *)
 Theorem set_fields_written_sorted :
